@@ -317,6 +317,126 @@ def lbfgsUpdateHist (numHist : Nat) (bdiag : α) (hist : List (Vec α × Vec α)
     (Vec.dot y y / ys, hist ++ [(s, y)])
   else (bdiag, hist)
 
+/-! ### box-constrained L-BFGS direction (`LBFGS::getBoxConstrainedDirection`)
+
+The two implicit-matrix products are parameters: `binv` is `multBInv` (modelled above), `bmul` is
+`multB` (compact representation with a square root and BLAS products; a parameter like `sqrt`/`pow`
+in Adam).  The function is written on a list of per-coordinate records so that the per-coordinate
+guarantees can be stated by membership. -/
+
+/-- per-coordinate data after the split into movable ("active") and blocked variables -/
+structure BoxCoord (α : Type) where
+  l : α
+  u : α
+  x : α
+  /-- movable (`active` in the C++) -/
+  act : Bool
+  /-- `-g_i` on movable coordinates, 0 on blocked ones -/
+  p0 : α
+  /-- `(B⁻¹ p0)_i` on movable coordinates, 0 on blocked ones -/
+  step : α
+
+namespace Box
+
+/-- `double eps = 1.e-13` -/
+def eps : α := Scalar.ofRat (1 / 10000000000000)
+
+/-- `(l(i) > x(i) - eps && p0(i) < 0) || (u(i) < x(i) + eps && p0(i) > 0)` -/
+def blocked (l u x p : α) : Bool :=
+  (decide (x - eps < l) && decide (p < Scalar.zero)) || (decide (u < x + eps) && decide (Scalar.zero < p))
+
+/-- `p0 = -m_derivative` with the blocked coordinates zeroed -/
+def p0 (l u x g : Vec α) : Vec α :=
+  List.zipWith (fun (lu : α × α) (xg : α × α) =>
+    if blocked lu.1 lu.2 xg.1 (-xg.2) then Scalar.zero else -xg.2) (List.zip l u) (List.zip x g)
+
+/-- the records; `step = p0; multBInv(step); step(i) = 0 for blocked i` -/
+def coords (binv : Vec α → Vec α) (l u x g : Vec α) : List (BoxCoord α) :=
+  let st := binv (p0 l u x g)
+  List.zipWith (fun (lux : α × α × α) (gs : α × α) =>
+    let b := blocked lux.1 lux.2.1 lux.2.2 (-gs.1)
+    { l := lux.1, u := lux.2.1, x := lux.2.2, act := !b,
+      p0 := if b then Scalar.zero else -gs.1, step := if b then Scalar.zero else gs.2 })
+    (List.zip l (List.zip u x)) (List.zip g st)
+
+/-- `(l(i) > x(i) - eps + step(i)) || (u(i) < x(i) + eps + step(i))` on a movable coordinate -/
+def stepInfeasibleAt (c : BoxCoord α) : Bool :=
+  c.act && (decide (c.x - eps + c.step < c.l) || decide (c.u < c.x + eps + c.step))
+
+/-- body of the step-length clipping loop for one coordinate:
+`if(d_i == 0) continue; la = (l_i - pt_i)/d_i; ua = (u_i - pt_i)/d_i;
+if(la > 0) alpha = min(alpha, la); if(ua > 0) alpha = min(alpha, ua)` (movable coordinates only) -/
+def clipStep (pt d : BoxCoord α → α) (alpha : α) (c : BoxCoord α) : α :=
+  if !c.act || Scalar.beq (d c) Scalar.zero then alpha else
+    let la := (c.l - pt c) / d c
+    let ua := (c.u - pt c) / d c
+    let alpha := if Scalar.zero < la then Scalar.min alpha la else alpha
+    if Scalar.zero < ua then Scalar.min alpha ua else alpha
+
+/-- the step-length clipping loop (used twice: from `x` along the Cauchy step, from the Cauchy point
+along `step - cauchy`), started with `alpha = a0` (1 in the C++) -/
+def clip (pt d : BoxCoord α → α) (cs : List (BoxCoord α)) (a0 : α) : α :=
+  cs.foldl (clipStep pt d) a0
+
+/-- `cauchy = p0 / inner_prod(p0, Bp0)` -/
+def cauchy (pBp : α) (c : BoxCoord α) : α := c.p0 / pBp
+
+/-- the body of `getBoxConstrainedDirection` after `step` has been computed; `pBp = p0ᵀ B p0` -/
+def direction (pBp : α) (cs : List (BoxCoord α)) : Vec α :=
+  let p := cs.map (·.p0)
+  if Scalar.beq (Vec.normSqr p) Scalar.zero then p            -- stationary on the movable variables
+  else if !(cs.any stepInfeasibleAt) then cs.map (·.step)     -- the quasi-Newton step is feasible
+  else
+    let alpha := clip (·.x) (cauchy pBp) cs Scalar.one
+    if alpha < Scalar.one then cs.map fun c => alpha * cauchy pBp c   -- clipped Cauchy step
+    else
+      let alpha2 := clip (fun c => c.x + cauchy pBp c) (fun c => c.step - cauchy pBp c) cs Scalar.one
+      cs.map fun c => cauchy pBp c + alpha2 * (c.step - cauchy pBp c)  -- dog-leg
+
+/-! #### the two repaired variants (findings F-C10-12/13: clipping by the sign of the direction; F-C10-14: Cauchy
+step scaled by `|p0|²`); which one a tree contains is regenerated from its source (`Gen/LbfgsBox.lean`) -/
+
+structure Variant where
+  clipBySign : Bool
+  cauchyScaled : Bool
+  deriving DecidableEq, Repr
+
+/-- `double bound = d_i > 0 ? u_i : l_i; alpha = std::min(alpha, std::max(0.0, (bound - pt_i)/d_i));` -/
+def clipStepSign (pt d : BoxCoord α → α) (alpha : α) (c : BoxCoord α) : α :=
+  if !c.act || Scalar.beq (d c) Scalar.zero then alpha else
+    let bound := if Scalar.zero < d c then c.u else c.l
+    Scalar.min alpha (Scalar.max Scalar.zero ((bound - pt c) / d c))
+
+def clipV (v : Variant) (pt d : BoxCoord α → α) (cs : List (BoxCoord α)) (a0 : α) : α :=
+  bif v.clipBySign then cs.foldl (clipStepSign pt d) a0 else clip pt d cs a0
+
+/-- `cauchy = p0 * (norm_sqr(p0) / inner_prod(p0,Bp0))` (scaled) or `p0 / inner_prod(p0,Bp0)`; `pp = p0ᵀp0` -/
+def cauchyV (v : Variant) (pp pBp : α) (c : BoxCoord α) : α :=
+  bif v.cauchyScaled then c.p0 * (pp / pBp) else cauchy pBp c
+
+/-- `direction` for either variant; `directionV ⟨false, false⟩ pp = direction` (`directionV_head`) -/
+def directionV (v : Variant) (pp pBp : α) (cs : List (BoxCoord α)) : Vec α :=
+  let p := cs.map (·.p0)
+  if Scalar.beq (Vec.normSqr p) Scalar.zero then p
+  else if !(cs.any stepInfeasibleAt) then cs.map (·.step)
+  else
+    let alpha := clipV v (·.x) (cauchyV v pp pBp) cs Scalar.one
+    if alpha < Scalar.one then cs.map fun c => alpha * cauchyV v pp pBp c
+    else
+      let alpha2 := clipV v (fun c => c.x + cauchyV v pp pBp c) (fun c => c.step - cauchyV v pp pBp c) cs Scalar.one
+      cs.map fun c => cauchyV v pp pBp c + alpha2 * (c.step - cauchyV v pp pBp c)
+
+def directionOfV (v : Variant) (binv bmul : Vec α → Vec α) (l u x g : Vec α) : Vec α :=
+  let p := p0 l u x g
+  directionV v (Vec.normSqr p) (Vec.dot p (bmul p)) (coords binv l u x g)
+
+/-- `getBoxConstrainedDirection(searchDirection, l, u)` at point `x` with gradient `g` -/
+def directionOf (binv bmul : Vec α → Vec α) (l u x g : Vec α) : Vec α :=
+  let p := p0 l u x g
+  direction (Vec.dot p (bmul p)) (coords binv l u x g)
+
+end Box
+
 /-- `computeSearchDirection` of the three subclasses (L-BFGS: unconstrained branch).
 Input: the state after the line search. -/
 def computeSearchDirection (s : LSOpt α) : LSOpt α :=
